@@ -38,7 +38,7 @@ Theorem roundtrip_stream_unconditional : forall st, (forall n, lorc_ok (st n)) -
       read_session dstate dctx_init fd_info fd_dec true junk file sizes = FOk (chop (concat bufs) sizes).
 Proof.
   intros st Hst.
-  exact (roundtrip_discharged (blk_fast_linked st 0) (blk_fast_linked_contract st 0 Hst) (blk_fast_linked_bytes st 0)).
+  exact (roundtrip_discharged (blk_fast_linked st 0) (blk_fast_linked_contract st 0 Hst) (blk_fast_linked_bytes st 0 Hst)).
 Qed.
 
 Print Assumptions roundtrip_indep_unconditional.
